@@ -120,6 +120,26 @@ def eq_values(I, st, a, b):
     if isinstance(a, (bool, int, Fraction)) and isinstance(b, (bool, int, Fraction)):
         return a == b
     if isinstance(a, str) or isinstance(b, str):
+        if (isinstance(a, FmtStr) and isinstance(b, str)) or (isinstance(b, FmtStr) and isinstance(a, str)):
+            f, s_ = (a, b) if isinstance(a, FmtStr) else (b, a)
+            # a complete string against a template: it must begin / end with the template's known beginning / ending
+            if (f.parts[0][0] == "lit" and not s_.startswith(f.parts[0][1])) or (f.parts[-1][0] == "lit" and not s_.endswith(f.parts[-1][1])):
+                return False
+            ints = [p for p in f.parts if p[0] == "int"]
+            if len(ints) == 1 and len(f.parts) <= 3:
+                # prefix + ONE integer field + suffix: equal iff the middle of the string is the canonical rendering of an
+                # integer under the field's width / fill, and the field has that value
+                pre = f.parts[0][1] if f.parts[0][0] == "lit" else ""
+                suf = f.parts[-1][1] if f.parts[-1][0] == "lit" else ""
+                if len(pre) + len(suf) > len(s_):
+                    return False
+                mid = s_[len(pre):len(s_) - len(suf)]
+                _, term, width, fill = ints[0]
+                spec_ = ("0" if fill == "0" else "") + (str(width) if width else "") + "d"
+                import re as _re
+                if _re.fullmatch(r" *-?[0-9]+", mid) is None or format(int(mid), spec_) != mid:
+                    return False
+                return term == int(mid)
         if isinstance(a, Opaque) or isinstance(b, Opaque):
             raise Unsupported("== between a string and an uninterpreted value (%s)" % (a.desc if isinstance(a, Opaque) else b.desc))
         return isinstance(a, str) and isinstance(b, str) and a == b
@@ -160,6 +180,10 @@ def eq_values(I, st, a, b):
         return a == b if type(a) is type(b) else False
     if isinstance(a, frozenset) and isinstance(b, frozenset):
         return a == b
+    if isinstance(a, FmtStr) and isinstance(b, FmtStr):
+        r = fmtstr_eq(a, b)
+        if r is not None:
+            return r
     if isinstance(a, Opaque) or isinstance(b, Opaque):
         raise Unsupported("== on an uninterpreted value")
     if isinstance(a, EnumMember) and isinstance(b, EnumMember):
@@ -176,6 +200,38 @@ def seq_eq(I, st, xs, ys):
     if len(xs) != len(ys):
         return False
     return conj([eq_values(I, st, x, y) for x, y in zip(xs, ys)])
+
+
+def fmtstr_eq(a, b):
+    """== of two formatted strings of the SAME known structure (same literals, same width / fill per integer field): the
+    renderings are equal iff all integer fields are equal.  Exact when the rendering can be parsed back uniquely: every
+    literal that follows an integer field starts with a non-digit and no two integer fields are adjacent (a field renders
+    as padding + optional '-' + digits, so it ends exactly where the digits end).  None: not this case (caller: Unsupported)."""
+    pa, pb = a.parts, b.parts
+    # different known beginnings / endings: the renderings differ whatever the fields are
+    la, lb = (pa[0][1] if pa[0][0] == "lit" else ""), (pb[0][1] if pb[0][0] == "lit" else "")
+    if not (la.startswith(lb) or lb.startswith(la)):
+        return False
+    ta, tb = (pa[-1][1] if pa[-1][0] == "lit" else ""), (pb[-1][1] if pb[-1][0] == "lit" else "")
+    if not (ta.endswith(tb) or tb.endswith(ta)):
+        return False
+    if len(pa) != len(pb):
+        return None
+    out = []
+    for k in range(len(pa)):
+        x, y = pa[k], pb[k]
+        if x[0] != y[0]:
+            return None
+        if x[0] == "lit":
+            if x[1] != y[1]:
+                return None
+            if k > 0 and pa[k - 1][0] == "int" and (x[1] == "" or x[1][0].isdigit()):
+                return None
+        else:
+            if x[2:] != y[2:] or (k > 0 and pa[k - 1][0] == "int"):
+                return None
+            out.append(x[1] == y[1])
+    return conj(out)
 
 
 def conj(parts):
@@ -831,6 +887,10 @@ def setitem(I, st, obj, idx, v):
             for st1, r in I.call(m, [obj, idx, v], {}, st):
                 yield st1, (r if isinstance(r, Exc) else None)
             return
+    if obj is None or isinstance(obj, (bool, int, Fraction)) or (is_z3(obj) and (z3.is_int(obj) or z3.is_real(obj) or z3.is_bool(obj))):
+        # None / a number: TypeError, as in Python
+        yield st, exc("TypeError", "'%s' object does not support item assignment" % ("NoneType" if obj is None else "number"))
+        return
     raise Unsupported("item assignment on %r" % (obj,))
 
 
